@@ -324,6 +324,21 @@ func reflectModels() map[string]modelFn {
 		if _, isI := t.Underlying().(*types.Interface); isI {
 			return RV{T: t, V: rv.asIface(), RO: rv.RO}
 		}
+		if rv.kind() == kSlice {
+			// slice -> array / pointer to array: convertible as types, panics when the slice is too short
+			var at *types.Array
+			switch u := t.Underlying().(type) {
+			case *types.Array:
+				at = u
+			case *types.Pointer:
+				at, _ = u.Elem().Underlying().(*types.Array)
+			}
+			if at != nil {
+				if n := ex.rvLen(rv); n < int(at.Len()) {
+					ex.rpanic("reflect: cannot convert slice with length %d to array with length %d", n, at.Len())
+				}
+			}
+		}
 		val := rv.val()
 		if ifc, ok := val.(Iface); ok && rv.kind() == kInterface {
 			val = ifc.V
@@ -565,7 +580,8 @@ func reflectModels() map[string]modelFn {
 		}
 		return goInt(n)
 	})
-	v("Call", func(ex *Exec, rv RV, a []Val) Val { return ex.rvCall(rv, a[0]) })
+	v("Call", func(ex *Exec, rv RV, a []Val) Val { return ex.rvCall(rv, a[0], false) })
+	v("CallSlice", func(ex *Exec, rv RV, a []Val) Val { return ex.rvCall(rv, a[0], true) })
 	v("Slice", func(ex *Exec, rv RV, a []Val) Val {
 		i, j := a[0].(Int), a[1].(Int)
 		var capv int
@@ -896,7 +912,7 @@ func (ex *Exec) checkHashableCtx(v Val, ctx string) {
 	}
 }
 
-func (ex *Exec) rvCall(rv RV, argv Val) Val {
+func (ex *Exec) rvCall(rv RV, argv Val, isSlice bool) Val {
 	if rv.T == nil {
 		ex.rpanic("reflect: call of reflect.Value.Call on zero Value")
 	}
@@ -914,7 +930,18 @@ func (ex *Exec) rvCall(rv RV, argv Val) Val {
 	as, _ := argv.(Slice)
 	args := as.elems()
 	n := sig.Params().Len()
-	if sig.Variadic() {
+	if isSlice {
+		// CallSlice: the last argument is the variadic slice itself
+		if !sig.Variadic() {
+			ex.rpanic("reflect: CallSlice of non-variadic function")
+		}
+		if len(args) < n {
+			ex.rpanic("reflect: CallSlice with too few input arguments")
+		}
+		if len(args) > n {
+			ex.rpanic("reflect: CallSlice with too many input arguments")
+		}
+	} else if sig.Variadic() {
 		if len(args) < n-1 {
 			ex.rpanic("reflect: Call with too few input arguments")
 		}
@@ -932,7 +959,7 @@ func (ex *Exec) rvCall(rv RV, argv Val) Val {
 		}
 	}
 	fixed := n
-	if sig.Variadic() {
+	if sig.Variadic() && !isSlice {
 		fixed = n - 1
 	}
 	call := make([]Val, 0, n)
@@ -947,7 +974,7 @@ func (ex *Exec) rvCall(rv RV, argv Val) Val {
 		}
 		call = append(call, copyVal(a.toType(pt)))
 	}
-	if sig.Variadic() {
+	if sig.Variadic() && !isSlice {
 		st := sig.Params().At(n - 1).Type().Underlying().(*types.Slice)
 		var rest []Val
 		for i := fixed; i < len(args); i++ {
